@@ -45,6 +45,10 @@ Edges(P) == {<<P[i], P[(i % Len(P)) + 1]>> : i \in 1..Len(P)}
 Inside(P, X, Y) == Cardinality({e \in Edges(P) : Crosses(e[1], e[2], X, Y)}) % 2 = 1
 OnBoundary(P, X, Y) == \E e \in Edges(P) : OnEdge(e[1], e[2], X, Y)
 
+\* the wrappers are pure functions of the point: what was evaluated before does not matter, and a vector the wrapped
+\* function hands out (and keeps) is never modified.  prev = "other": the wrapped function returns one retained vector
+\* object and the wrapper has been evaluated at another point (another toroidal angle / period) first.
+Prevs == {"none", "other"}
 \* --- the cases
 Cases ==
        {[w |-> "IsoMapper2D", x |-> p[1], y |-> p[2]] : p \in Pyth}
@@ -54,11 +58,11 @@ Cases ==
   \cup {[w |-> "Slice2D", axis |-> a, value |-> v, x |-> x] : a \in 0..1, v \in {-5, 3}, x \in {-4, 7}}
   \cup {[w |-> "Slice3D", axis |-> a, value |-> v, x |-> x, y |-> 25] : a \in 0..2, v \in {-5, 3}, x \in {-4, 7}}
   \cup {[w |-> "AxisymmetricMapper", x |-> p[1], y |-> p[2], r |-> p[3], z |-> z] : p \in Pyth, z \in Zs}
-  \cup {[w |-> "VectorAxisymmetricMapper", x |-> p[1], y |-> p[2], r |-> p[3], z |-> z] : p \in Pyth, z \in {6}}
+  \cup {[w |-> "VectorAxisymmetricMapper", x |-> p[1], y |-> p[2], r |-> p[3], z |-> z, prev |-> pv] : pv \in Prevs, p \in Pyth, z \in {6}}
   \cup {[w |-> "AxisToken", mapper |-> m, token |-> t, z |-> 6] : m \in {"AxisymmetricMapper", "VectorAxisymmetricMapper", "CylindricalTransform", "VectorCylindricalTransform"},
                                                                    t \in {"origin", "tiny_x", "tiny_neg_y", "subnormal_x", "tiny_neg_x"}}
   \cup {[w |-> "CylindricalTransform", x |-> p[1], y |-> p[2], r |-> p[3], z |-> z] : p \in Pyth, z \in {-3, 6}}
-  \cup {[w |-> "VectorCylindricalTransform", x |-> p[1], y |-> p[2], r |-> p[3], z |-> z] : p \in Pyth, z \in {6}}
+  \cup {[w |-> "VectorCylindricalTransform", x |-> p[1], y |-> p[2], r |-> p[3], z |-> z, prev |-> pv] : pv \in Prevs, p \in Pyth, z \in {6}}
   \cup {cc \in {[w |-> "ClampInput1D", lo |-> lo, hi |-> hi, x |-> x] : lo \in {-5, 0}, hi \in {0, 7}, x \in Coord} : cc.lo < cc.hi}   \* the constructors require min < max
   \cup {[w |-> "ClampInput2D", lo |-> -4, hi |-> 3, x |-> x, y |-> y] : x \in {-12, 0, 25}, y \in {-5, 3, 7}}
   \cup {[w |-> "ClampInput3D", lo |-> -4, hi |-> 3, x |-> x, y |-> y, z |-> z] : x \in {-12, 25}, y \in {-5, 7}, z \in {0, 25}}
@@ -68,9 +72,9 @@ Cases ==
   \cup {[w |-> "PeriodicTransform1D", p |-> p, x |-> x] : p \in {5, 10, 25}, x \in Coord \cup {-25, -10, 10, 20, 50, -1, 1}}
   \cup {[w |-> "PeriodicTransform2D", p |-> 5, q |-> 25, x |-> x, y |-> y] : x \in {-12, 0, 25, 7}, y \in {-5, 3, -4}}
   \cup {[w |-> "PeriodicTransform3D", p |-> 5, q |-> 25, s |-> 10, x |-> x, y |-> y, z |-> z] : x \in {-12, 7}, y \in {-5, 3}, z \in {-25, 25}}
-  \cup {[w |-> "VectorPeriodicTransform1D", p |-> 5, x |-> x] : x \in Coord}
-  \cup {[w |-> "VectorPeriodicTransform2D", p |-> 5, q |-> 25, x |-> x, y |-> y] : x \in {-12, 7}, y \in {-5, 3}}
-  \cup {[w |-> "VectorPeriodicTransform3D", p |-> 5, q |-> 25, s |-> 10, x |-> x, y |-> y, z |-> z] : x \in {-12, 7}, y \in {-5}, z \in {-25, 25}}
+  \cup {[w |-> "VectorPeriodicTransform1D", p |-> 5, x |-> x, prev |-> pv] : pv \in Prevs, x \in Coord}
+  \cup {[w |-> "VectorPeriodicTransform2D", p |-> 5, q |-> 25, x |-> x, y |-> y, prev |-> pv] : pv \in Prevs, x \in {-12, 7}, y \in {-5, 3}}
+  \cup {[w |-> "VectorPeriodicTransform3D", p |-> 5, q |-> 25, s |-> 10, x |-> x, y |-> y, z |-> z, prev |-> pv] : pv \in Prevs, x \in {-12, 7}, y \in {-5}, z \in {-25, 25}}
   \cup {[w |-> "PeriodicToken", p |-> p, token |-> t] : p \in {5, 10}, t \in {"neg_tiny", "neg_zero", "huge", "neg_huge", "exact_multiple", "neg_exact_multiple", "just_below_period"}}
   \cup {[w |-> "PolygonMask2D", poly |-> i, X |-> pt[1], Y |-> pt[2]] : i \in 1..6, pt \in HalfPts}
   \cup {[w |-> "sample1d", lo |-> lo, hi |-> hi, n |-> n] : lo \in {-5}, hi \in {-5, 7}, n \in {1, 2, 3, 5}}
